@@ -94,6 +94,34 @@ SEMANTIC RULES ADDED IN ROUND 2
   * An empty display (`xs = []`, `s = set()`, `d = {}`) gets its element type from the first add/append/`in`/item
     assignment/out-parameter use; if none fixes it the function is refused.
 
+SEMANTIC RULES ADDED IN ROUND 3
+  * OPAQUE CALLEES: `Spec(…, opaque=[Opaque(obj, "nameO", [(pyparam, T)…], ret, monadic=True)])`.  A call that resolves
+    to the live object `obj` becomes an application of the explicit function parameter `nameO : T1 → … → Except PyErr R`
+    (placed after `fuel`/`ord`, before the Python parameters); arguments are evaluated in the order written, keyword
+    arguments and constant defaults are placed by the declared parameter names.  Nothing is assumed about an opaque
+    callee except its type (`monadic=True`: it may raise); the theorem instantiates it.  A translated caller of a
+    function with opaque callees must declare the same objects and hands its own parameters on.
+  * CALL STATEMENTS `f(…)` of a translated or opaque callee are a bind whose result is dropped (`let t ← f …; pure ()`);
+    control continues after it as in Python (a callee that always raises is seen as such by the proof, not guessed).
+  * `UNUSED` parameter type: the callee never reads the parameter (it only occurs inside an unevaluated `raise` message;
+    any other read is an unknown name and refused); it is not a parameter of the Lean function, call sites evaluate
+    the argument (it may raise) and drop it.
+  * `Spec(…, assume={"fields": True})`: the truth value of a parameter in this CALL SHAPE; `if fields:` is decided at
+    translation time and the dead branch is not translated (like `fixed`).  The theorem carries the matching hypothesis
+    (`fields ≠ []`).  Refused if the parameter is assigned.
+  * UNKNOWN SET ORDER: `Spec(…, set_order=True)` gives the function the parameter `ord : Nat → {α : Type} → List α →
+    List α` (after `fuel`).  Where a set is iterated and the order may matter (what round 2 refuses) the iteration is
+    over `ord <site> s` (`<site>` a constant unique in the module).  Theorems quantify over EVERY `ord` with
+    `∀ k l, (ord k l).Perm l`.  ASSUMPTION: within one call, the order in which a set is iterated at a given site is
+    a function of the set's elements in insertion order (true of CPython for sets that are built by the same code
+    path and are not changed between iterations; two sets with the same insertion history iterate alike).  Callers
+    of such a function need `set_order` too and hand `ord` on.  The selftest runs them with identity / reverse / a
+    site-dependent rotation and compares with CPython as sets.
+  * `d[k].add(e)` / `d[k].append(e)` on a LOCAL dict of sets/lists: `d ← pyDictModify d k (fun c => pySetAdd c e)`
+    (KeyError when k is missing).  Sound because the dict must be built from NEW containers (`{k: set() for …}`, a
+    display of fresh values; anything else is refused), stores into it must be fresh, and it is not a parameter.
+    A non-mutated local may now be appended to a list whose elements are not changed in place.
+
 SEMANTIC ASSUMPTIONS (what the generated Lean means)
   * int is the unbounded `Int`; str is the list of its code points (Unicode scalar values: a str with a lone
     surrogate is not representable and outside the theorems); iterating/indexing a str yields one-character strs
